@@ -18,7 +18,7 @@ META = {
                    'R11.5 device-space operations (push_clip_rect, pop_clip, push_layer*, composite_surface family) never read the transform, '
                    'directly or through local callees, and mask() passes device-space rectangles; R11.6 (=R20.3) Path::transform maps every point.',
     'decides': ['R11.1 geometry goes through the CTM', 'R11.2 sources use inverse CTM then source transform; singular CTM draws nothing', 'R11.3 stroke tolerance scales with the CTM',
-                'R11.4 transform restored by pop_layer/clear', 'R11.5 device-space operations ignore the CTM', 'R11.6 Path::transform'],
+                'R11.4 transform restored by pop_layer/clear', 'R11.5 device-space operations ignore the CTM', 'R11.6 Path::transform', 'R11.7 user-space and device-space quantities are never compared or combined except under transform == identity', 'R11.8 a method drawing its caller\'s Source never writes self.transform'],
     'does_not_decide': ['bit-identity of CTM vs pre-transformed path beyond the shared transform_point call', 'sampling positions as numbers', 'line width scaling as pixels'],
     'assumptions': ['euclid Transform2D::inverse/then/transform_point/determinant (external)'],
     'trusted_base': ['euclid 0.22.14'],
